@@ -71,3 +71,17 @@ package message
 //@ func (*Startup).IsThrowOnOverload
 //@   prop C20
 //@   ensures get: result == (has(m.Options, StartupOptionThrowOnOverload) && m.Options[StartupOptionThrowOnOverload] == "1")
+
+// ---- C03: a message codec writes exactly the number of bytes it announces -----------------------------------------
+// encLen(codec, msg, version) names that number. The two clauses below are what callers may rely on; they are
+// discharged per codec by the lemma functions lemmaLen<Message> further down (Encode and EncodedLength executed on
+// the same message), not by these clauses themselves.
+
+//@ iface Codec.EncodedLength
+//@   prop C03
+//@   assigns nothing
+//@   assumes len: result1 == nil ==> result0 == encLen(self, msg, version)
+//@ iface Codec.Encode
+//@   prop C03
+//@   assigns wstream(dest)
+//@   assumes len: result == nil ==> written(dest) == old(written(dest)) + encLen(self, msg, version)
